@@ -26,3 +26,34 @@ package jobconfig
 //@   ensures [C02] uid-label-always-the-jobconfigs: (LabelKeyJobConfigUID in result) && result[LabelKeyJobConfigUID] == string(rjc.UID)
 //@   ensures [C02] template-labels-otherwise: forall k string :: k != LabelKeyJobConfigUID ==> ((k in result) == (k in rjc.Spec.Template.Labels) && result[k] == rjc.Spec.Template.Labels[k])
 //@   ensures [C02] fresh-map: result != nil && fresh(result)
+
+//@ func makeAnnotations
+//@   tags C02
+//@   requires rjc != nil
+//@   loop 1 invariant desiredAnnotations != nil && fresh(desiredAnnotations) && desiredAnnotations != template.Annotations
+//@   loop 1 invariant forall k string :: (k in desiredAnnotations) ==> visited(k) && desiredAnnotations[k] == template.Annotations[k]
+//@   loop 1 invariant forall k string :: visited(k) ==> (k in desiredAnnotations) && (k in template.Annotations)
+//@   loop 2 invariant desiredAnnotations != nil && fresh(desiredAnnotations) && additionalAnnotations != nil && fresh(additionalAnnotations) && additionalAnnotations != desiredAnnotations
+//@   loop 2 invariant forall k string :: (k in additionalAnnotations) == (k == AnnotationKeyScheduleTime && jobType == execution.JobTypeScheduled)
+//@   loop 2 invariant jobType == execution.JobTypeScheduled ==> additionalAnnotations[AnnotationKeyScheduleTime] == strconv.Itoa(createTime.Unix())
+//@   loop 2 invariant forall k string :: !(k in additionalAnnotations) ==> ((k in desiredAnnotations) == (k in rjc.Spec.Template.Annotations) && desiredAnnotations[k] == rjc.Spec.Template.Annotations[k])
+//@   loop 2 invariant forall k string :: (k in additionalAnnotations) ==> (visited(k) ==> ((k in desiredAnnotations) && desiredAnnotations[k] == additionalAnnotations[k]))
+//@   ensures [C02] schedule-time-recorded: jobType == execution.JobTypeScheduled ==> (AnnotationKeyScheduleTime in result) && result[AnnotationKeyScheduleTime] == strconv.Itoa(createTime.Unix())
+//@   ensures [C02] template-annotations-otherwise: forall k string :: !(k == AnnotationKeyScheduleTime && jobType == execution.JobTypeScheduled) ==>
+//@        ((k in result) == (k in rjc.Spec.Template.Annotations) && result[k] == rjc.Spec.Template.Annotations[k])
+//@   ensures [C02] fresh-map: result != nil && fresh(result)
+
+//@ func NewJobFromJobConfig
+//@   tags C02
+//@   requires jobConfig != nil
+//@   modifies clock
+//@   ensures [C02] result0 != nil <==> result1 == nil
+//@   ensures [C02] name-and-namespace: result1 == nil && !createTime.IsZero() ==> result0.Name == jobNameFor(jobConfig.Name, createTime.Unix()) && result0.Namespace == jobConfig.Namespace
+//@   ensures [C02] labelled-with-exactly-this-jobconfig: result1 == nil ==> (LabelKeyJobConfigUID in result0.Labels) && result0.Labels[LabelKeyJobConfigUID] == string(jobConfig.UID)
+//@   ensures [C02] records-schedule-time: result1 == nil && jobType == execution.JobTypeScheduled ==>
+//@        (AnnotationKeyScheduleTime in result0.Annotations) && result0.Annotations[AnnotationKeyScheduleTime] == strconv.Itoa(createTime.Unix())
+//@   ensures [C02] owned-by-exactly-this-jobconfig: result1 == nil ==> len(result0.OwnerReferences) == 1 && result0.OwnerReferences[0].Controller != nil && *result0.OwnerReferences[0].Controller
+//@        && result0.OwnerReferences[0].Kind == execution.GVKJobConfig.Kind && result0.OwnerReferences[0].Name == jobConfig.Name && result0.OwnerReferences[0].UID == jobConfig.UID
+//@   ensures [C02,C13,C16] has-delete-dependents-finalizer: result1 == nil ==> len(result0.Finalizers) == 1 && result0.Finalizers[0] == executiongroup.DeleteDependentsFinalizer
+//@   ensures [C02] type-recorded: result1 == nil ==> result0.Spec.Type == jobType && fresh(result0)
+//@   ensures [C02] jobconfig-untouched: *jobConfig == old(*jobConfig)
